@@ -55,14 +55,19 @@ def run(ctx):
     r1 = ctx.rule("R1", "effect closure of `gwf status`: no submit/cancel/delete/state mutation reachable; only the no-op submit function")
     preview_closure(ctx, r1, roots["status"], {}, "status")
     gsm = idx.func("gwf.scheduling:get_status_map")
-    subs = []
-    for c in _calls(gsm.node):
-        if isinstance(c.func, ast.Name) and c.func.id == "schedule":
-            for kw in c.keywords:
-                if kw.arg == "submit_func":
-                    subs = [v[0].key for v in res.callable_values(kw.value, gsm, {})]
-            if not subs and len(c.args) > 5:
-                subs = [v[0].key for v in res.callable_values(c.args[5], gsm, {})]
+
+    def submit_funcs(root, bindings):
+        """Functions bound to schedule()'s submit_func on any path from root (from the reachability contexts)."""
+        visited, _e, _u = res.reach(root, bindings)
+        out = set()
+        for (key, b) in visited:
+            if key == "gwf.scheduling:schedule":
+                for name, val in b:
+                    if name == "submit_func" and isinstance(val, tuple):
+                        out.update(k for k, _extra in val)
+        return sorted(out)
+
+    subs = submit_funcs(gsm, {})
     r1.check(subs == ["gwf.scheduling:_submit_noop"], f"{gsm.module.relpath}::{gsm.qual}::submit_func", "status schedules with _submit_noop only",
              f"the status map is computed with submit function(s) {subs}: it must be the no-op", gsm.where)
     for key in subs:
@@ -99,8 +104,9 @@ def run(ctx):
                      f"the group callback creates `{t}`, which is not the project's state directory", loc(c, main.module))
 
     r3 = ctx.rule("R3", "status, dry-run and run share one decision procedure; what is shown shouldrun/failed/cancelled is what is submitted", min_instances=5)
+    from ..inline import inlined
     sw = idx.func("gwf.scheduling:submit_workflow")
-    for f in (gsm, sw):
+    for f in (inlined(ctx, gsm), inlined(ctx, sw)):
         ok = False
         detail = ""
         for c in _calls(f.node):
@@ -118,9 +124,14 @@ def run(ctx):
     # dry-run selects an effect-free announcer, the real run a function that reaches the backend's submit
     sel = {}
     for flag in (True, False):
-        for c in _calls(sw.node):
-            if isinstance(c.func, (ast.Name, ast.Attribute)) and idx.canon(c.func, sw.module) == "functools.partial" and c.args:
-                sel[flag] = res.callable_values(c, sw, {"dry_run": flag})
+        visited, _e, _u = res.reach(sw, {"dry_run": flag})
+        vals = []
+        for (key, b) in visited:
+            if key == "gwf.scheduling:schedule":
+                for name, val in b:
+                    if name == "submit_func" and isinstance(val, tuple):
+                        vals.extend((idx.functions[k], extra) for k, extra in val)
+        sel[flag] = vals
     dry_effs, real_effs = [], []
     for f, extra in sel.get(True, []):
         dry_effs += [e for e in res.reach(f, dict(extra))[1] if e.kind != "FS_READ"]
@@ -137,7 +148,7 @@ def run(ctx):
     rule_hash_after_accept(ctx, r3)
 
     r4 = ctx.rule("R4", "filters and formats show restrictions of the one computed table; printers are total (also on an empty selection)", min_instances=6)
-    st = roots["status"]
+    st = inlined(ctx, roots["status"])
     scon = f"{st.module.relpath}::{st.qual}"
     # order: map first, then filters
     map_line = None
@@ -180,6 +191,15 @@ def run(ctx):
             if ast.unparse(g.iter) == f"{table_var}.items()" and isinstance(g.target, ast.Tuple) and len(g.target.elts) == 2:
                 k, v = [dotted(e) for e in g.target.elts]
                 if dotted(d.key) == k and dotted(d.value) == v and len(g.ifs) == 1 and ast.unparse(g.ifs[0]) == f"{k} in matches":
+                    restr = True
+    for n in walk_no_nested(st.node):
+        # loop form: new = {}; for k, v in table.items(): if k in matches: new[k] = v
+        if isinstance(n, ast.For) and ast.unparse(n.iter) == f"{table_var}.items()" and isinstance(n.target, ast.Tuple) and len(n.target.elts) == 2:
+            k, v = [dotted(e) for e in n.target.elts]
+            body = [b for b in n.body if not (isinstance(b, ast.Expr) and isinstance(b.value, ast.Constant))]
+            if len(body) == 1 and isinstance(body[0], ast.If) and ast.unparse(body[0].test) == f"{k} in matches" and not body[0].orelse and len(body[0].body) == 1:
+                st2 = body[0].body[0]
+                if isinstance(st2, ast.Assign) and isinstance(st2.targets[0], ast.Subscript) and dotted(st2.targets[0].slice) == k and dotted(st2.value) == v:
                     restr = True
     r4.check(restr, scon + "::restriction", "shown table = {k: v for k, v in table.items() if k in matches} (statuses untouched)",
              "the shown table is not the plain restriction of the computed table to the matching targets", st.where)
